@@ -2,6 +2,9 @@
 //
 // Included as `helpers::gateway::ipa_verif_hook`.  C13 suites:
 //   c13_config      c13.config <active> <read_size> <record_size> <u|i|s<n>>
+//                   c13.window <base_active> <read_size> <w> <record_size> <u|i|s<n>>   (real set_active_work -> new_with)
+//                   c13.qwindow <base_active> <read_size> <query_size>                  (real set_active_work_from_query_config)
+//                   (c13_channel also: c13.burst <base_active> <read_size> <w> <size> <n>)
 //   c13_collection  c13.coll <op,op,…>            (StreamCollection op sequences)
 //   c13_channel     c13.chan <active> <read_size> <size> <i|s<n>> <op,op,…>   (real Gateway pair)
 
@@ -79,8 +82,58 @@ mod c13_config {
         }
     }
 
+    fn panic_tag(p: String) -> String {
+        for tag in ["Message size cannot be 0", "assertion `left == right` failed", "assertion failed", "called `Result::unwrap()` on an `Err` value"] {
+            if p.contains(tag) {
+                return format!("panic:{tag}");
+            }
+        }
+        p
+    }
+
+    /// `GatewayConfig { active: base, read_size, .. }.set_active_work(w)` and the send-channel
+    /// configuration `get_mpc_sender` derives from it.
+    fn exec_window(t: &[&str]) -> String {
+        let base: usize = t[1].parse().unwrap();
+        let read_size: usize = t[2].parse().unwrap();
+        let w: usize = t[3].parse().unwrap();
+        let record_size: usize = t[4].parse().unwrap();
+        let total = parse_total(t[5]);
+        let cfg = GatewayConfig {
+            active: NonZeroU32PowerOfTwo::try_from(base).expect("harness: active must be a power of two"),
+            read_size: NonZeroUsize::new(read_size).expect("harness: read_size must be non-zero"),
+            ..Default::default()
+        };
+        let cfg = cfg.set_active_work(NonZeroU32PowerOfTwo::try_from(w).expect("harness: window must be a power of two"));
+        let active = cfg.active_work().get();
+        match guarded(|| ipa_verif_send_channel_config(cfg, total, record_size)) {
+            Ok((c, r, rd)) => format!("{active} {c} {r} {rd}"),
+            Err(p) => panic_tag(p),
+        }
+    }
+
+    fn exec_qwindow(t: &[&str]) -> String {
+        use crate::{ff::FieldType, helpers::query::{QueryConfig, QueryType}};
+        let base: usize = t[1].parse().unwrap();
+        let read_size: usize = t[2].parse().unwrap();
+        let size: usize = t[3].parse().unwrap();
+        let mut cfg = GatewayConfig {
+            active: NonZeroU32PowerOfTwo::try_from(base).expect("harness: active must be a power of two"),
+            read_size: NonZeroUsize::new(read_size).expect("harness: read_size must be non-zero"),
+            ..Default::default()
+        };
+        let qc = QueryConfig::new(QueryType::TestMultiply, FieldType::Fp31, size).expect("harness: query size out of range");
+        cfg.set_active_work_from_query_config(&qc);
+        format!("{} {}", cfg.active_work().get(), cfg.read_size.get())
+    }
+
     pub fn exec(req: &str) -> String {
         let t: Vec<&str> = req.split(' ').collect();
+        match t[0] {
+            "c13.window" => return exec_window(&t),
+            "c13.qwindow" => return exec_qwindow(&t),
+            _ => {}
+        }
         assert_eq!(t[0], "c13.config");
         let active: usize = t[1].parse().unwrap();
         let read_size: usize = t[2].parse().unwrap();
@@ -106,6 +159,53 @@ mod c13_config {
 
     pub fn generate(rng: &mut Rng, thorough: bool) -> Vec<String> {
         let mut out = vec![];
+        // the per-channel window override: every power of two up to the gateway default and well above it
+        // (DZKP contexts open channels with window = records_per_batch), on gateways configured below, at
+        // and above the requested window
+        {
+            let mut windows: Vec<usize> = (1..=16).map(|a| 1usize << a).collect();
+            windows.extend_from_slice(&[1 << 17, 1 << 20, 1 << 24]);
+            for &w in &windows {
+                for &base in &[2usize, 16, 32768, 1 << 20] {
+                    for &r in &[1usize, 2, 3, 4, 8, 14, 32, 33, 100, 4096] {
+                        for &rd in &[1usize, 2048, 4096, 1 << 20] {
+                            if !thorough && (base == 16 || rd == 4096 || r == 33) && w != 65536 {
+                                continue;
+                            }
+                            for k in ["s1000", "i"] {
+                                out.push(format!("c13.window {base} {rd} {w} {r} {k}"));
+                            }
+                        }
+                    }
+                }
+            }
+            for _ in 0..(if thorough { 5000 } else { 500 }) {
+                let w = 1usize << (1 + rng.usize_below(26));
+                let base = 1usize << (1 + rng.usize_below(20));
+                let (b1, b2) = (rng.bool(), rng.bool());
+                let r = 1 + rng.usize_below(if b1 { 40 } else { 5000 });
+                let rd = 1 + rng.usize_below(if b2 { 64 } else { 100_000 });
+                let k = *rng.pick(&["i", "s1", "s7", "u"]);
+                out.push(format!("c13.window {base} {rd} {w} {r} {k}"));
+            }
+            // query-size derived window: around every power of two up to beyond the default cap
+            let mut sizes: Vec<usize> = vec![1, 2, 3];
+            for a in 2..=17 {
+                sizes.extend_from_slice(&[(1 << a) - 1, 1 << a, (1 << a) + 1]);
+            }
+            sizes.extend_from_slice(&[1_000_000, 999_999_999, 1_000_000_000]);
+            for &n in &sizes {
+                for &base in &[2usize, 32768, 1 << 20] {
+                    out.push(format!("c13.qwindow {base} 2048 {n}"));
+                }
+            }
+            for _ in 0..(if thorough { 2000 } else { 200 }) {
+                let b1 = rng.bool();
+                let n = 1 + rng.usize_below(if b1 { 100_000 } else { 1_000_000_000 });
+                let (base, rd) = (1usize << (1 + rng.usize_below(20)), 1 + rng.usize_below(5000));
+                out.push(format!("c13.qwindow {base} {rd} {n}"));
+            }
+        }
         let actives: Vec<usize> = (0..=16).map(|a| 1usize << a).collect();
         let mut records: Vec<usize> = (0..=33).collect();
         records.extend_from_slice(&[63, 64, 65, 100, 255, 256, 257, 1000, 2047, 2048, 2049, 4095, 4096, 4097, 5000]);
@@ -332,8 +432,89 @@ mod c13_channel {
         res.join(";")
     }
 
+    pub fn burst_digest(sz: usize, n: usize) -> u64 {
+        const M: u64 = 1_000_000_007;
+        (0..n).fold(0u64, |acc, i| {
+            let inner = payload(0, i, sz).iter().fold(0u64, |a, &b| (a * 257 + u64::from(b) + 1) % M);
+            (acc * 31 + inner) % M
+        })
+    }
+
+    /// A channel opened with the window `w` on a gateway whose own window is `base`: the sender writes
+    /// records `0..n` one after the other (each send polled to completion before the next) while the
+    /// receiver does not poll at all; a send that does not complete at once is reported as `blocked`
+    /// (nobody could ever wake it). Then the receiver takes all records in order.
+    async fn run_burst<N: ArrayLength>(base: usize, read_size: usize, w: usize, n: usize) -> String {
+        let world = TestWorld::new_with(TestWorldConfig {
+            gateway_config: GatewayConfig {
+                active: NonZeroU32PowerOfTwo::try_from(base).expect("harness: active must be a power of two"),
+                read_size: NonZeroUsize::new(read_size).unwrap(),
+                ..Default::default()
+            },
+            ..Default::default()
+        });
+        let tx = world.gateway(Role::H1);
+        let rx = world.gateway(Role::H2);
+        let gate = Gate::from("verif/g0");
+        let total = TotalRecords::specified(n).unwrap();
+        let w_p2 = NonZeroU32PowerOfTwo::try_from(w).expect("harness: window must be a power of two");
+        let send_end = tx.get_mpc_sender::<C13Msg<N>>(&ChannelId::new(Role::H2, gate.clone()), total, w_p2);
+        for i in 0..n {
+            let m = C13Msg::<N>(GenericArray::try_from_iter(payload(0, i, N::USIZE)).unwrap());
+            let fut = send_end.send(RecordId::from(i), m);
+            futures::pin_mut!(fut);
+            match futures::poll!(fut.as_mut()) {
+                std::task::Poll::Ready(Ok(())) => {}
+                std::task::Poll::Ready(Err(e)) => return format!("err:{e}"),
+                std::task::Poll::Pending => return format!("blocked at={i}"),
+            }
+        }
+        let recv_end = rx.get_mpc_receiver::<C13Msg<N>>(&ChannelId::new(Role::H1, gate));
+        const M: u64 = 1_000_000_007;
+        let mut acc = 0u64;
+        for i in 0..n {
+            match recv_end.receive(RecordId::from(i)).await {
+                Ok(m) => {
+                    let inner = m.0.iter().fold(0u64, |a, &b| (a * 257 + u64::from(b) + 1) % M);
+                    acc = (acc * 31 + inner) % M;
+                }
+                Err(e) => return format!("err:receive({i}): {e}"),
+            }
+        }
+        format!("ok n={n} digest={acc}")
+    }
+
+    fn exec_burst(t: &[&str]) -> String {
+        let base: usize = t[1].parse().unwrap();
+        let read_size: usize = t[2].parse().unwrap();
+        let w: usize = t[3].parse().unwrap();
+        let sz: usize = t[4].parse().unwrap();
+        let n: usize = t[5].parse().unwrap();
+        macro_rules! go {
+            ($n:ty) => {
+                block_on_timeout(30, run_burst::<$n>(base, read_size, w, n))
+            };
+        }
+        let r = match sz {
+            1 => go!(U1),
+            2 => go!(U2),
+            3 => go!(U3),
+            4 => go!(U4),
+            8 => go!(U8),
+            32 => go!(U32),
+            n => panic!("harness: unsupported message size {n}"),
+        };
+        match r {
+            Ok(s) => s,
+            Err(e) => e,
+        }
+    }
+
     pub fn exec(req: &str) -> String {
         let t: Vec<&str> = req.split(' ').collect();
+        if t[0] == "c13.burst" {
+            return exec_burst(&t);
+        }
         assert_eq!(t[0], "c13.chan");
         let active: usize = t[1].parse().unwrap();
         let read_size: usize = t[2].parse().unwrap();
@@ -449,6 +630,26 @@ mod c13_channel {
                 out.push(format!("c13.chan {a} {rd} {sz} i {}", script(rng, 1, n, false, mode)));
             }
             out.push(format!("c13.chan {a} {rd} {sz} s{n} {}", script(rng, 2, n, true, 3)));
+        }
+        // a whole window outstanding before the peer reads: windows below, at and above the gateway's own
+        // window (32768 by default; DZKP batches request more), exactly the window / one less / one more
+        for &(base, rd, w, sz) in &[
+            (2usize, 1usize, 2usize, 1usize), (2, 2048, 4, 3), (16, 2048, 4, 8), (2, 3, 16, 2), (32768, 2048, 64, 32), (16, 4096, 1024, 4),
+            (32768, 2048, 32768, 1), (32768, 2048, 65536, 1), (2, 2048, 65536, 1),
+        ] {
+            if !thorough && w >= 32768 && base == 2 {
+                continue;
+            }
+            for n in [w, w - 1, w + 1] {
+                if w >= 32768 && n != w && !thorough {
+                    continue;
+                }
+                out.push(format!("c13.burst {base} {rd} {w} {sz} {n}"));
+            }
+        }
+        if thorough {
+            out.push("c13.burst 32768 2048 131072 2 131072".to_string());
+            out.push("c13.burst 32768 2048 65536 8 65536".to_string());
         }
         let n_cases = if thorough { 1500 } else { 150 };
         for k in 0..n_cases {
